@@ -32,12 +32,9 @@ func (g *Genome) compatibility(og *Genome, opts *neat.Options) float64 {
 func (g *Genome) compatLinear(og *Genome, opts *neat.Options) float64 {
 	numDisjoint, numExcess, mutDiffTotal, numMatching := 0.0, 0.0, 0.0, 0.0
 	size1, size2 := len(g.Genes), len(og.Genes)
-	maxGenomeSize := size2
-	if size1 > size2 {
-		maxGenomeSize = size1
-	}
 	var gene1, gene2 *Gene
-	for i, i1, i2 := 0, 0, 0; i < maxGenomeSize; i++ {
+	// walk until both gene lists are exhausted
+	for i1, i2 := 0, 0; i1 < size1 || i2 < size2; {
 		if i1 >= size1 {
 			numExcess += 1.0
 			i2++
@@ -71,8 +68,13 @@ func (g *Genome) compatLinear(og *Genome, opts *neat.Options) float64 {
 	// Return the compatibility number using compatibility formula
 	// Note that mut_diff_total/num_matching gives the AVERAGE difference between mutation_nums for any two matching
 	// Genes in the Genome. Look at disjointedness and excess in the absolute (ignoring size)
+	mutDiffAvg := 0.0
+	if numMatching > 0 {
+		// no matching genes - no mutational difference to account for (avoids 0/0 = NaN)
+		mutDiffAvg = mutDiffTotal / numMatching
+	}
 	comp := opts.DisjointCoeff*numDisjoint + opts.ExcessCoeff*numExcess +
-		opts.MutdiffCoeff*(mutDiffTotal/numMatching)
+		opts.MutdiffCoeff*mutDiffAvg
 
 	return comp
 }
